@@ -381,6 +381,27 @@ def fault_cases(ctx, per_seed, ntrunc):
             except Exception:  # noqa
                 continue
             one(ctx, eps, base, sname, {"seed": sname, "object": n, "path": [str(x) for x in p], "fault": repr(rep)}, pdf)
+        if per_seed:
+            # the sampled tier also sweeps ONE kind of fault over every site: each integer replaced by a real (the
+            # commonest type confusion: 5.0 for 5 in an index, a count, a CID bound), first entry point only
+            done = set((n, p) for n, p, rep in jobs if rep == 1.5)
+            for n, p, rep in all_jobs:
+                if rep != 1.5 or (n, p) in done or p[-1] == "<data>":
+                    continue
+                cur = objs[n]
+                try:
+                    for q in p:
+                        cur = cur.d if q == "<dict>" else cur[q]
+                except (KeyError, IndexError, TypeError, AttributeError):
+                    continue
+                if isinstance(cur, bool) or not isinstance(cur, int):
+                    continue
+                o2 = apply_fault(objs, n, p, rep, ctx.sub("fault", sname, n, repr(p), repr(rep)))
+                try:
+                    pdf = write_pdf(o2, 1)
+                except Exception:  # noqa
+                    continue
+                one(ctx, eps[:1], base, sname, {"seed": sname, "object": n, "path": [str(x) for x in p], "fault": repr(rep)}, pdf)
         if sname == "seed1":
             # a page and a glyph that are both enormous: the spatial index works per 50x50 cell (known finding)
             huge = dict(objs)
